@@ -47,9 +47,55 @@ fn run(doc: &xml_dom::XmlDocument, ctx: &mut xml_xpath::eval::model::Context, ex
 fn fresh_ctx(ns: &[(String, String)]) -> xml_xpath::eval::model::Context {
     let mut ctx = xml_xpath::eval::model::Context::default();
     for (p, u) in ns {
-        ctx.add_ns(Some(p.as_str()), u.as_str());
+        if p.is_empty() {
+            // a default namespace of the caller (what `--setns xmlns=uri` does)
+            ctx.add_ns(None, u.as_str());
+        } else {
+            ctx.add_ns(Some(p.as_str()), u.as_str());
+        }
     }
     ctx
+}
+
+/// another document that the same context serves between the queries on the document under test
+const OTHER: &str = "<r xmlns:p='urn:1' k='1'><e id='a'>t<p:e p:id='b'>u</p:e></e><x/><!--c--><x k='2'><y/>v</x></r>";
+
+/// one of seven edits through the DOM; Some(description) when it was carried out
+fn edit(doc: &xml_dom::XmlDocument, which: usize) -> Option<String> {
+    use xml_dom::{AsNode, Document, DocumentMut, ElementMut, NamedNodeMap, Node, NodeList, NodeMut};
+    let root = doc.document_element().ok()?;
+    let elems: Vec<xml_dom::XmlNode> = root.child_nodes().iter().filter(|n| matches!(n, xml_dom::XmlNode::Element(_))).collect();
+    match which {
+        0 => root.set_attribute("xmlns", "urn:b").ok().map(|_| "default namespace declared on the document element".to_string()),
+        1 => root.set_attribute("xmlns:p", "urn:edited").ok().map(|_| "prefix p declared on the document element".to_string()),
+        2 => {
+            let name = root.as_node().attributes().and_then(|m| m.iter().map(|a| a.node_name()).find(|n| n.starts_with("xmlns")));
+            match name {
+                Some(n) => root.remove_attribute(&n).ok().map(|_| format!("namespace declaration {} removed from the document element", n)),
+                None => root.set_attribute("k", "edited").ok().map(|_| "attribute k set on the document element".to_string()),
+            }
+        }
+        3 => {
+            if elems.len() < 2 {
+                return None;
+            }
+            let target = elems.last()?.as_element()?;
+            target.append_child(elems[0].clone()).ok().map(|_| "first element child moved into the last one".to_string())
+        }
+        4 => {
+            let first = root.child_nodes().iter().next()?;
+            root.remove_child(&first).ok().map(|_| "first child of the document element removed".to_string())
+        }
+        5 => {
+            let e = elems.first()?.as_element()?;
+            e.set_attribute("k2", "v").ok().map(|_| "attribute k2 set on the first element child".to_string())
+        }
+        _ => {
+            let c = doc.create_comment("edited").as_node();
+            let first = root.child_nodes().iter().next();
+            root.insert_before(c, first.as_ref()).ok().map(|_| "comment inserted as first child of the document element".to_string())
+        }
+    }
 }
 
 const FAILING: &[&str] = &[
@@ -83,7 +129,9 @@ impl Property for C19 {
          inside predicates at depth 1-3 (unknown function, wrong arity, variable reference, unbound prefix) and probes that read position()/last() at top level or in filters right \
          after a failure. Oracle: (a) two parses of the same text give equal canonical trees, equal XmlDocument::eq and equal serialisations; (b) the canonical tree and the \
          serialisation of the document are the same before and after the whole sequence; (c) each query's result in the shared context equals its result with a fresh context on a \
-         fresh parse of the text (node-sets compared by pre-order positions); (d) repeating a query immediately gives the same answer. Non-trivial = the sequence contains a failing \
+         fresh parse of the text (node-sets compared by pre-order positions); (d) repeating a query immediately gives the same answer; (e) the same sequence in a second context that also serves a fixed other document before each query gives the \
+         fresh-context answers too; (f) after the sequence the caller makes one of seven DOM edits (namespace declaration set / removed on the document element, subtree moved, child removed, \
+         attribute set, comment inserted) and repeats the sequence: the answers equal those of a fresh parse that got the same edit without ever being queried; a third of the callers bind a default namespace. Non-trivial = the sequence contains a failing \
          query followed by a probe of position()/last(), or at least 4 queries of 2 different result types; distinct by (document, sequence)."
             .into()
     }
@@ -192,6 +240,11 @@ impl Property for C19 {
                     queries.push(["//*[@xml:lang]", "count(//@xml:*)", "//*[attribute::xml:*]", "//xml:a", "count(//@xml:lang)"][text.len() / 2 % 5].to_string());
                     queries.push(["count(//@xml:lang)", "//*[@xml:lang]", "//xml:a", "count(//@xml:*)", "//*[self::xml:* or nosuch()]"][text.len() / 3 % 5].to_string());
                 }
+                // a third of the callers bind a default namespace (an empty prefix here)
+                if text.len() % 3 == 0 {
+                    ns.push((String::new(), ["urn:d", "urn:1", "urn:other"][text.len() / 3 % 3].to_string()));
+                    labels.push("caller-binds-default-namespace".to_string());
+                }
                 if fail_then_probe {
                     labels.push("failing-query-then-position-probe".to_string());
                 }
@@ -236,6 +289,9 @@ impl Property for C19 {
         let ns: Vec<(String, String)> = case["ns"].as_array().map(|a| a.iter().map(|x| (x[0].as_str().unwrap_or("").to_string(), x[1].as_str().unwrap_or("").to_string())).collect()).unwrap_or_default();
         let queries: Vec<&str> = case["queries"].as_array().map(|a| a.iter().filter_map(|x| x.as_str()).collect()).unwrap_or_default();
         let mut shared = fresh_ctx(&ns);
+        // a second context that also serves another document between the queries
+        let mut shared2 = fresh_ctx(&ns);
+        let other = xml_dom::XmlDocument::from_raw_with_context(OTHER, xml_dom::Context::from_text_expanded(true)).ok().map(|(_, d)| d);
         for (i, q) in queries.iter().enumerate() {
             let got = run(&d1, &mut shared, q);
             // (d) immediate repetition
@@ -258,12 +314,62 @@ impl Property for C19 {
                 );
             }
         }
+        // (e) one context for two documents
+        if let Some(other) = &other {
+            for (i, q) in queries.iter().enumerate() {
+                let _ = run(other, &mut shared2, q);
+                let got = run(&d1, &mut shared2, q);
+                let mut fc = fresh_ctx(&ns);
+                let want = run(&d2, &mut fc, q);
+                if got != want {
+                    fail!(
+                        "c19.context-shared-between-documents-differs".to_string(),
+                        format!("query #{} {:?} gives {} in a context that served {:?} before, but {} with a fresh context [document {:?}; earlier queries {:?}]", i, q, got, OTHER, want, text, &queries[..i])
+                    );
+                }
+                obs.label("context-served-another-document");
+            }
+        }
         // (b) the document is unchanged
         if canon::doc_json(&d1) != c1 {
             fail!("c19.query-changed-document.canonical-tree".to_string(), format!("the canonical tree changed after the queries {:?} [document {:?}]", queries, text));
         }
         if d1.to_string() != s1 {
             fail!("c19.query-changed-document.serialisation".to_string(), format!("the serialisation changed after the queries {:?} [document {:?}]", queries, text));
+        }
+        // (f) the caller edits the document after the queries: from then on it must answer like a document that got the
+        // same edit without ever having been queried
+        let d3 = match parse() {
+            Ok((_, d)) => d,
+            Err(_) => return Verdict::Discard("document-rejected".into()),
+        };
+        let which = (text.len() / 2) % 7;
+        let o1 = panics::catch(std::panic::AssertUnwindSafe(|| edit(&d1, which)));
+        let o3 = panics::catch(std::panic::AssertUnwindSafe(|| edit(&d3, which)));
+        let (o1, o3) = match (o1, o3) {
+            (Ok(a), Ok(b)) => (a, b),
+            _ => return Verdict::Pass, // a panicking mutator is C13's subject
+        };
+        if o1 != o3 {
+            fail!("c19.edit-outcome-depends-on-earlier-queries".to_string(), format!("edit #{} gives {:?} after the queries {:?} but {:?} on a document that was never queried [document {:?}]", which, o1, queries, o3, text));
+        }
+        if o1.is_some() {
+            obs.label("edit-after-queries");
+            let p1 = d1.to_string();
+            if p1 != d3.to_string() {
+                fail!("c19.edit-result-depends-on-earlier-queries".to_string(), format!("after edit #{} the queried document prints {:?}, the never-queried one {:?} [queries {:?}]", which, p1, d3.to_string(), queries));
+            }
+            for (i, q) in queries.iter().enumerate() {
+                let got = run(&d1, &mut shared, q);
+                let mut fc = fresh_ctx(&ns);
+                let want = run(&d3, &mut fc, q);
+                if got != want {
+                    fail!(
+                        "c19.query-after-edit-depends-on-earlier-queries".to_string(),
+                        format!("after edit #{} ({}) query #{} {:?} gives {} on the document that was queried before, but {} on a document that got the same edit without earlier queries [document {:?}; earlier queries {:?}]", which, o1.clone().unwrap_or_default(), i, q, got, want, text, queries)
+                    );
+                }
+            }
         }
         Verdict::Pass
     }
